@@ -277,6 +277,22 @@ fn dispatch_request<TCompilationProfile: CompilationProfile>(
     }
 }
 
+#[cfg(isographlabs_isograph_verif)]
+pub(crate) fn dispatch_notification_for_verif<TCompilationProfile: CompilationProfile>(
+    notification: lsp_server::Notification,
+    lsp_state: &mut LspState<TCompilationProfile>,
+) -> ControlFlow<Option<LSPRuntimeError>, ()> {
+    dispatch_notification(notification, lsp_state)
+}
+
+#[cfg(isographlabs_isograph_verif)]
+pub(crate) fn dispatch_request_for_verif<TCompilationProfile: CompilationProfile>(
+    request: lsp_server::Request,
+    lsp_state: &LspState<TCompilationProfile>,
+) -> Response {
+    dispatch_request(request, lsp_state)
+}
+
 fn bridge_crossbeam_to_tokio<T: Send + 'static>(
     crossbeam_receiver: crossbeam::channel::Receiver<T>,
     tokio_sender: tokio::sync::mpsc::Sender<T>,
